@@ -369,16 +369,25 @@ def jobs(tier, seed):
     v = seed % 3
     specs = []
     for obj in ("indexed", "xy", "hist", "indexed-model", "xy-model", "hist-model"):
-        for vv in ([v] if tier == "quick" else [0, 1, 2]):
+        if tier == "quick":
             for sh in range(NSHARD):
-                specs.append((obj, vv, tier, sh))
+                specs.append((obj, v, tier, sh))
+        else:
+            # thorough: length 4 over the quick kind alphabet on one valuation (long jobs first), length 3 over ALL source kinds on all three
+            for sh in range(4 * NSHARD):
+                specs.append((obj, v, "thorough-L4", sh))
+    if tier != "quick":
+        for obj in ("indexed", "xy", "hist", "indexed-model", "xy-model", "hist-model"):
+            for vv in (0, 1, 2):
+                for sh in range(NSHARD):
+                    specs.append((obj, vv, "thorough-kinds", sh))
     return specs
 
 
 def bound(tier, seed):
     if tier == "quick":
         return "mutator sequences of length <= 3 (<= 2 declared sources) starting with each source kind, <= 1 intermediate read at any position, all rotations of the final read order; valuation %d" % (seed % 3)
-    return "mutator sequences of length <= 4 (<= 2 declared sources), <= 1 intermediate read (any observable, any position) and 2 intermediate reads for length <= 3, all rotations of the final read order; valuations 0,1,2"
+    return "mutator sequences of length <= 4 (<= 2 declared sources) over the quick source-kind alphabet on valuation %d, and of length <= 3 over ALL source kinds on valuations 0,1,2; <= 1 intermediate read (any observable, any position), all rotations of the final read order" % (seed % 3)
 
 
 def execute(res, obj, v, seq, inter, rot, record=True):
@@ -425,10 +434,11 @@ def execute(res, obj, v, seq, inter, rot, record=True):
 def run_job(spec):
     obj, v, tier, shard = spec
     res = JobResult()
-    L = 3 if tier == "quick" else 4
-    kinds = (QUICK_KINDS if tier == "quick" else KINDS_BY_OBJ)[obj]
+    L = 4 if tier == "thorough-L4" else 3
+    kinds = (KINDS_BY_OBJ if tier == "thorough-kinds" else QUICK_KINDS)[obj]
+    nshard = 4 * NSHARD if tier == "thorough-L4" else NSHARD
     allseqs = [s for s in sequences(obj, v, L, kinds, 2) if _interesting(s)]
-    seqs = [s for i, s in enumerate(allseqs) if i % NSHARD == shard]
+    seqs = [s for i, s in enumerate(allseqs) if i % nshard == shard]
     nreads = len(CWorld(obj, v).reads())
     rd = CWorld(obj, v).reads()
     for seq in seqs:
